@@ -161,8 +161,14 @@ where
 	/// Trims from the start of the capture buffer so the next chunk will begin
 	/// at the specified reader offset.
 	fn trim_to_offset(&mut self, offset: u64) {
-		let trim_len = usize::try_from(offset - self.captured_start_offset).unwrap();
-		self.captured_start_offset = offset;
+		let mut trim_len = usize::try_from(offset - self.captured_start_offset).unwrap();
+		// An implicit document starts at its first token, but the chunk needs
+		// to keep the indentation in front of that token so the first line
+		// stays aligned with the rest of the document.
+		while trim_len > 0 && self.captured[trim_len - 1] == b' ' {
+			trim_len -= 1;
+		}
+		self.captured_start_offset += trim_len as u64;
 		self.captured.drain(..trim_len);
 	}
 
